@@ -322,11 +322,7 @@ def executePlanRef (p : Plan) (inputs : Vars) (w : World) (fuel : Nat) : MRespon
   | .ok vars =>
     let q := if p.dynamicDirectives then p.specialise vars else p
     let c : Ctx := { schema := q.schema, frags := q.frags, vars := vars, world := w }
-    let out := runPlan c (recompute q.schema q.frags q.planVars) q fuel { errs := [], events := [], memo := [] }
-    match out.1 with
-    | .ok fs => .result (some fs) out.2.errs.reverse out.2.events.reverse
-    | .fail => .result none out.2.errs.reverse out.2.events.reverse
-    | .fuelOut => .fuelOut
+    MResponse.of (runPlan c (recompute q.schema q.frags q.planVars) q fuel { errs := [], events := [], memo := [] })
 
 theorem runPlan_agree (c : Ctx) (q : Plan) (hc1 : c.schema = q.schema) (hc2 : c.frags = q.frags) (hr : KeysNodup q.root)
     (fuel : Nat) (st st0 : MSt) (h : StRel st st0) (hv : Valid c q.planVars q.rootType q.root st.memo) :
@@ -411,7 +407,7 @@ theorem executePlanCore_eq_ref (p : Plan) (hr : KeysNodup p.root) (inputs : Vars
       simp only at h1 h2
       subst h1
       refine ⟨?_, fun hf => by simp at hf⟩
-      cases r1 <;> simp only [h2.1, h2.2]
+      cases r1 <;> simp only [MResponse.of, h2.1, h2.2]
     · have hd' : p.dynamicDirectives = false := by simpa using hd
       simp only [hd', Bool.false_eq_true, if_false]
       have ha := runPlan_agree { schema := p.schema, frags := p.frags, vars := vars, world := w } p rfl rfl hr fuel
@@ -424,7 +420,7 @@ theorem executePlanCore_eq_ref (p : Plan) (hr : KeysNodup p.root) (inputs : Vars
       simp only at h1 h2 h3
       subst h1
       refine ⟨?_, fun _ => ?_⟩
-      · cases r1 <;> simp only [h2.1, h2.2]
-      · cases r1 <;> exact h3
+      · cases r1 <;> simp only [MResponse.of, h2.1, h2.2]
+      · exact h3
 
 end GqlModel.Plan
